@@ -142,6 +142,7 @@ func runHistory(profile string, seed int64, nops int, path string) map[string]in
 	done := 0
 	for done < nops && !c.Halted {
 		t += int64(1 + r.Intn(pick(r, []int{5, 30, 300})))
+		t = g.boundaryTime(t)
 		o := Op{Kind: "BEGIN", T: t}
 		res := step(c, h, o, mon)
 		g.Observe(o, res)
